@@ -125,6 +125,13 @@ def finish_sym(res, specs, built, dagfiles, results, opts):
                     res.undecided.append('%s path %d: %s' % (e.name, p.idx, r['cf_error']))
                     res.obligations += 1
                     continue
+                if r.get('structural'):
+                    res.obligations += r['side']; res.discharged += r['side_ok']
+                    for name, st in r['claims'].items():
+                        res.claims += 1; res.obligations += 1; res.discharged += 1
+                    if len(res.samples) < 6 and r['claims']:
+                        res.samples.append({'entry': e.name, 'path': p.idx, 'decisions': len(p.decisions), 'claims_identical_nodes': len(r['claims'])})
+                    continue
                 res.obligations += r['lemmas'] + 1   # lemmas + feasibility
                 res.discharged += r['lemmas_ok'] + (1 if r['feasible'] is not None else 0)
                 res.lemmas += r['lemmas']
@@ -197,7 +204,7 @@ def handle_candidates(res, s, e, p, r, cand, dbin, known, approx, opts):
         if sc == 'unsat':
             res.undecided.append('%s: numeric candidate refuted by the solver at the pinned point' % key); continue
         # replay on the real double build
-        rep = replay(res, s, e, name, asg, dbin)
+        rep = replay(res, s, e, name, asg, dbin, lv, rv)
         rec = {'property': res.pid, 'key': key, 'entry': e.name, 'path': p.idx, 'claim': name,
                'inputs': {e.nodes[k].name: float(v) for k, v in asg.items()}, 'solver_at_pinned_point': sc, 'model_lhs': lv, 'model_rhs': rv, 'replay': rep,
                'path_decisions': [(e.nodes[a].op, c, e.nodes[b].op, t) for (a, c, b, t) in p.decisions]}
@@ -213,7 +220,7 @@ def handle_candidates(res, s, e, p, r, cand, dbin, known, approx, opts):
         json.dump(rec, open(fn, 'w'), indent=1)
         res.violations.append((key, fn))
 
-def replay(res, s, e, name, asg, dbin):
+def replay(res, s, e, name, asg, dbin, mlv=None, mrv=None):
     if not dbin: return None
     rundir = os.path.join(build.WORK, 'run', res.pid)
     inp = os.path.join(rundir, 'replay_input.txt')
@@ -230,7 +237,13 @@ def replay(res, s, e, name, asg, dbin):
             lv, rv = cp.cvals[name]
             sc = max(1.0, abs(lv), abs(rv))
             kind = [c[0] for c in cp.claims if c[1] == name][0]
-            if kind == 'EQ': bad = not (abs(lv - rv) <= 1e-7 * sc)
+            u = 2.0 ** -53
+            if mlv is not None:
+                # reproduce the model's violation margin (60-digit evaluation) up to a factor 2, above rounding noise
+                margin = abs(mlv - mrv)
+                if kind == 'EQ': bad = abs(lv - rv) > max(0.5 * margin, 256 * u * sc) or (lv != lv) or (rv != rv)
+                else: bad = (lv - rv) > max(0.5 * margin, 8 * u * sc) if margin > 0 else (lv - rv) > 8 * u * sc
+            elif kind == 'EQ': bad = not (abs(lv - rv) <= 1e-7 * sc)
             elif kind == 'LE': bad = not (lv <= rv + 1e-9 * sc)
             else: bad = not (lv < rv + 1e-9 * sc)
             return {'reproduced': bool(bad), 'double_lhs': lv, 'double_rhs': rv, 'binary': dbin, 'outcome': cp.outcome,
